@@ -239,13 +239,23 @@ def train_yaml(cfg):
                         out.append(f'        initial: {p["initial"]}')
     return '\n'.join(out) + '\n'
 
+REGISTRY = {}
+FILES = ('bidib_board_config.yml', 'bidib_track_config.yml', 'bidib_train_config.yml')
+
 def write_config(cfg, d, texts=None):
-    os.makedirs(d, exist_ok=True)
-    t = texts or (board_yaml(cfg), track_yaml(cfg), train_yaml(cfg))
-    for name, text in zip(('bidib_board_config.yml', 'bidib_track_config.yml', 'bidib_train_config.yml'), t):
-        with open(os.path.join(d, name), 'w') as f:
-            f.write(text)
+    """registers the three config texts under the relative directory name d; scenarios that mention d get 'cfgfile' lines
+    prepended (vlib/scen.py), so that every scenario - and every replay - carries its own configuration files"""
+    d = os.path.basename(d.rstrip('/'))
+    REGISTRY[d] = tuple(texts or (board_yaml(cfg), track_yaml(cfg), train_yaml(cfg)))
     return d
+
+def cfgfile_lines(d):
+    out = []
+    for name, text in zip(FILES, REGISTRY[d]):
+        if text is None:
+            continue        # file deliberately missing
+        out.append(f'cfgfile {d}/{name} ' + (text.encode('utf-8', 'surrogateescape').hex() if isinstance(text, str) else bytes(text).hex() or '-'))
+    return out
 
 def is_track_output(b):
     return bool(b['uid'][0] & 0x10)
